@@ -281,6 +281,14 @@ func ops() []op {
 
 const pointCap = 1500
 
+// capFor: with one preemption the number of schedules grows linearly with the points, so the cap can be generous
+func capFor(bound int) int {
+	if bound <= 1 {
+		return 40000
+	}
+	return pointCap
+}
+
 // explorePair explores all schedules of (a ‖ b) with at most `bound` preemptions.
 func explorePair(scratch string, a, b op, bound int, rep *Report, deadline time.Time) {
 	soloA, soloB := a.run(scratch), b.run(scratch)
@@ -300,7 +308,7 @@ func explorePair(scratch string, a, b op, bound int, rep *Report, deadline time.
 			}
 			t := S.Current()
 			counts[t]++
-			if counts[t] > pointCap {
+			if counts[t] > capFor(bound) {
 				capped = true
 				return
 			}
@@ -417,7 +425,7 @@ func removeSync() {
 func Main(args []string) {
 	runtime.GOMAXPROCS(1)
 	hclog.Info.Disable()
-	rep := &Report{Cap: pointCap}
+	rep := &Report{Cap: capFor(1)}
 	defer func() {
 		j, _ := json.Marshal(rep)
 		fmt.Println("INTERF-REPORT " + string(j))
@@ -495,6 +503,7 @@ func Main(args []string) {
 				continue
 			}
 			explorePair(scratch, all[i], all[j], bound, rep, deadline)
+			explorePair(scratch, all[j], all[i], bound, rep, deadline) // the other side starts
 			if rep.Infra != "" {
 				return
 			}
@@ -537,7 +546,7 @@ func replayOne(scratch string, a, b op, cas Case, rep *Report) {
 		}
 		t := S.Current()
 		counts[t]++
-		if counts[t] > pointCap {
+		if counts[t] > capFor(cas.Bound) {
 			return
 		}
 		S.Point(nil)
